@@ -31,8 +31,29 @@ def interpret_rotation(func, ri_syms, rixh_syms, R, RX):
     loop = loops[0]
     names = [e.id for e in loop.target.elts]
     w, wxh = {}, {}
-    env = {"ri_s": list(ri_syms), "riXH_s": list(rixh_syms), "r0": _Rows(R, 0), "r1": _Rows(R, 1), "r2": _Rows(R, 2),
-           "rx0": _Rows(RX, 0), "rx1": _Rows(RX, 1), "rx2": _Rows(RX, 2), "idx": 0, "idxXH": 0}
+    env = {"idx": 0, "idxXH": 0}
+    # row views and unbound integral tuples are bound from their definitions in the code (r0 = rot[:, 0], ri_s = ri.unbind(dim=-1), ...)
+    mats = {"rot": R, "rotXH": RX}
+    vecs = {"ri": list(ri_syms), "riXH": list(rixh_syms)}
+    for st in func.body:
+        if st is loop:
+            break
+        if not (isinstance(st, ast.Assign) and len(st.targets) == 1 and isinstance(st.targets[0], ast.Name)):
+            continue
+        v = st.value
+        if isinstance(v, ast.Subscript) and isinstance(v.value, ast.Name) and v.value.id in mats:
+            elts = v.slice.elts if isinstance(v.slice, ast.Tuple) else [v.slice]
+            ints = [e.value for e in elts if isinstance(e, ast.Constant) and isinstance(e.value, int)]
+            full = [e for e in elts if isinstance(e, ast.Slice) and e.lower is None and e.upper is None]
+            if len(ints) == 1 and len(elts) >= 2 and isinstance(elts[0], ast.Slice) and isinstance(elts[1], ast.Constant) and len(ints) + len(full) == len(elts):
+                env[st.targets[0].id] = _Rows(mats[v.value.id], ints[0])
+        elif isinstance(v, ast.Call) and callee_attr(v) == "unbind" and isinstance(v.func.value, ast.Name) and v.func.value.id in vecs:
+            dim = [kw.value for kw in v.keywords if kw.arg == "dim"] or list(v.args)
+            if dim and norm(dim[0]) in ("-1", "1"):
+                env[st.targets[0].id] = vecs[v.func.value.id]
+    n_rows = sum(isinstance(x, _Rows) for x in env.values())
+    if n_rows < 6 or sum(isinstance(x, list) for x in env.values()) < 2:
+        raise AnalysisError(f"w_withquaternion: row views / unbound integral tuples not recognised ({n_rows} row views)")
 
     def ev(e):
         if isinstance(e, ast.Constant):
